@@ -95,18 +95,22 @@ func fieldValue(p any, f fieldRef) (v reflect.Value, ok bool) {
 
 // levelsOf returns the object itself and its embedded lower-level objects
 // (through the accessors), each with its level.
-func levelsOf(p any) []struct {
+func levelsOf(p any) (out []struct {
 	obj   any
 	level int
 	via   string
-} {
+}) {
 	type lv = struct {
 		obj   any
 		level int
 		via   string
 	}
 	top := kindLevel(kindOf(p))
-	out := []lv{{p, top, "self"}}
+	out = []lv{{p, top, "self"}}
+	defer func() { _ = recover() }() // a panicking accessor is reported by noPanicAll
+	if isNilObj(p) {
+		return out
+	}
 	if top >= 1 {
 		if b, ok := baseMetricsOf(p); ok && !isNilObj(b) {
 			out = append(out, lv{b, 0, "BaseMetrics()"})
